@@ -120,13 +120,18 @@ def render_member(n, layout=None):
     """layout: list of (sig, slot) with slot in pre/mid/mid2/post; None = canonical-ish (all after)."""
     dur = ''.join(n['dur'])
     if layout is None:
-        return dur + n['p'] + n['acc'] + ''.join(n['sigs'])
+        return dur + (n['p'] if n['p'] != 'r' else ('rr' if n.get('rr') else 'r') + n.get('pos', '')) + n['acc'] + ''.join(n['sigs'])
     pre = ''.join(s for s, sl in layout if sl == 'pre')
     mid = ''.join(s for s, sl in layout if sl == 'mid')
     mid2 = ''.join(s for s, sl in layout if sl == 'mid2')
     post = ''.join(s for s, sl in layout if sl == 'post')
     if n['p'] == 'r':
-        return pre + dur + 'r' + mid + mid2 + post
+        # rest variants of the grammar (extended profile only): whole-measure spelling 'rr', explicit vertical position
+        r = 'rr' if n.get('rr') else 'r'
+        pos = n.get('pos', '')
+        if pos and len(layout) % 2:
+            return pre + dur + r + pos + mid + mid2 + post
+        return pre + dur + r + mid + mid2 + post + pos
     if not dur:
         pre, mid = pre + mid, ''
     if not n['acc']:
@@ -171,6 +176,11 @@ def kern_data_cells(draw, chords=True, acc=True, sigs=True, grace=True, rest_in_
         ns = [draw(notes(acc=acc, sigs=sigs, grace=grace, ext=ext))]
     elif x < 9:
         ns = [draw(rests(sigs=sigs))]
+        if ext:
+            if draw(st.integers(0, 2)) == 0:
+                ns[0]['rr'] = True
+            if draw(st.integers(0, 2)) == 0:
+                ns[0]['pos'] = draw(st.sampled_from(['cc', 'b', 'G', 'ccc', 'BB', 'e', 'dd']))
     else:
         k = draw(st.integers(2, 4))
         ns = []
@@ -332,7 +342,13 @@ WORDS = ['la', 'le', 'Ky-', '-ri-', 'e', 'lei-son', 'Cañón', '日本', 'o, quo
          'ΑΩ', 'née', '„x“', 'a"b', ',', '"', "''", 'c4', 'M', 'k[', 'clefG2', '1/2', 'ri-', 'rit.', 'ri', 'rs', 're',
          'r4', '4r', '8rL', 'cresc', 'dim.', 'sf', 'fp', '4cL', 'q', 'qc',
          # characters str.splitlines() treats as line breaks; in a Humdrum cell they are ordinary text
-         'la\u2028li', 'x\x0cy', 'q\x85', 'a\u2029', '\x1cz', 'o\x0bo', 'm\x1dn\x1e']
+         'la\u2028li', 'x\x0cy', 'q\x85', 'a\u2029', '\x1cz', 'o\x0bo', 'm\x1dn\x1e',
+         # text that Unicode normalisation would rewrite (decomposed accents, singleton decompositions - among them
+         # the Greek ano teleia, whose NFC form is the middle dot, and the Greek question mark, whose NFC form is ';')
+         # characters for which str.isprintable() is false although they are ordinary text (no-break space, soft hyphen,
+         # zero-width joiner, ideographic space)
+         'Ah\u00a0!', 'Peu\u00adple', 'a\u200db', 'x\u3000y', '\u200c',
+         'Sen\u0303or', 'e\u0301-', 'A\u030a', '\u212b', '\u039a\u03cd\u03c1\u03b9\u03b5\u0387', '\u03c4\u03af\u037e', '\u1f71']
 _text_chars = st.characters(whitelist_categories=('Lu', 'Ll', 'Lt', 'Lm', 'Lo', 'Mn', 'Nd', 'Pc', 'Pd', 'Ps', 'Pe', 'Pi',
                                                   'Pf', 'Po', 'Sm', 'Sc', 'Sk', 'So'),
                             blacklist_characters='@\u00b7')
